@@ -737,3 +737,8 @@ B("C09", CU, _OLD_AR, "    return 1e4 * current / (2.0 * pi * radius * length)",
 # the inverse indices of unique as a subscript
 for _p in ("C01", "C12"):
     P(_p, CU, "    _, inverse_indices = jnp.unique(arr, return_inverse=True)\n    return inverse_indices", "    return jnp.unique(arr, return_inverse=True)[1]")
+# cut-offs of the radius interpolation
+_OLD_CO = "    cutoffs = np.cumsum(np.concatenate([np.asarray([0]), each_length])) / summed_len"
+for _p, _r in (("C16", "R-C16-forms"), ("C13", "R-C13-radius")):
+    P(_p, CU, _OLD_CO, "    cutoffs = np.concatenate([[0.0], np.cumsum(each_length)]) / summed_len")
+    B(_p, CU, _OLD_CO, "    cutoffs = np.cumsum(each_length) / summed_len", _r)
